@@ -118,7 +118,7 @@ def specStep (s : AState Name C) (now : Nat) : Op Name C → AState Name C × Re
   | .move h curx h2 newx ow => specMove norm now s h curx h2 newx ow
   | .get h namex =>
     match s h.dir (norm namex) with
-    | some (child, _) => (s, .node (some child))
+    | some (child, _) => (s, .node (some (viewThrough h child)))
     | none => (s, .err .noSuchChild)
   | .hasChild h namex => (s, .bool (s h.dir (norm namex)).isSome)
   | .getMetadata h namex =>
